@@ -369,6 +369,28 @@ def _c10_extra2():
     except Untranslatable as e:
         text += f"\n/-- SKIPPED ({e}) -/\ndef moduleKeyAccess : List (String × String × String) := Crop.keyAccessModel\n"
         status["moduleKeyAccess"] = f"skipped: {e}"
+    # ---- in-place operations on inputs
+    try:
+        from ..gen import find_function as _ff
+
+        rows = []
+        for rel, names in ((T, ["center_crop", "complex_center_crop", "complex_random_crop", "pad_tensor"]),
+                           (BBOX, ["crop_to_bbox", "crop_to_largest"])):
+            tr_ = _pf(_R / rel)
+            for nm in names:
+                rows += [(nm, w) for _, w in tb.inplace_on_inputs(_ff(tr_, nm))]
+        for cname in MODULE_CLASSES:
+            fn = guarded(lambda: tb.call_method(tb.class_def(tree, cname)))
+            smp = [a.arg for a in fn.args.args if a.arg != "self"][:1]
+            rows += [(f"{cname}.{fn.name}", w) for _, w in tb.inplace_on_inputs(fn, ("self", *smp))]
+        text += (f"\n/-- translated: operations that could modify an argument in place (`x.op_()`, `out=`, augmented / item\n"
+                 f"assignment on a parameter or a view of one) in the crop / pad primitives and the module calls -/\n"
+                 f"def inplaceOnInputs : List (String × String) :=\n  ["
+                 + ",\n   ".join(f"({_lean_str(a)}, {_lean_str(b)})" for a, b in rows) + "]\n")
+        status["inplaceOnInputs"] = f"translated ({len(rows)} rows)"
+    except (Untranslatable, SyntaxError, OSError) as e:
+        text += f"\n/-- SKIPPED ({e}) -/\ndef inplaceOnInputs : List (String × String) := []\n"
+        status["inplaceOnInputs"] = f"skipped: {e}"
     # ---- crop shape rule
     try:
         text += (f"\n/-- translated from `{MT}`:`CropKspace.__call__` (the if-chain assigning `crop_shape`) -/\n"
